@@ -70,7 +70,7 @@ def main():
             got = type(e).__name__
         if exc is not None and got != exc:
             fails.append({"name": "pre/non-causal-refused", "input": {"case": cases}, "message": "expected %s, got %r" % (exc, got)})
-    print(json.dumps({"cases": cases, "failures": fails}))
+    print(json.dumps({"cases": cases, "failures": fails}, default=str))
 
 
 if __name__ == "__main__":
